@@ -1,0 +1,22 @@
+//go:build verif
+
+package utils
+
+// Contracts for govc (contract-based deductive verification; see /verif/DESIGN.md).
+// This file holds only comments and is compiled only with -tags verif.
+
+// C07 safety sweep: any string is admitted (PEM text or a file name).
+
+//@ func IsValidPEM
+//@   tags C07
+//@   modifies nothing
+
+//@ func GetPEM
+//@   tags C07
+//@   modifies nothing
+//@   ensures [C07.getpem.err] result1 != nil ==> result == nil
+//@   ensures [C07.getpem.ok] result1 == nil ==> result != nil
+
+//@ func IsTruthy
+//@   tags C07
+//@   modifies nothing
